@@ -36,6 +36,21 @@ def gen_cases(tier, seed):
         c["nprog"] = 12
         c["multi"] = True
         cases.append(c)
+    # files of other writers, without pandas metadata: the third-party files of test-data and recipe files of the reference writer
+    import glob
+    import os
+    from vf import REPO
+    for p_ in sorted(glob.glob(os.path.join(REPO, "test-data", "*.parquet")) + glob.glob(os.path.join(REPO, "test-data", "*.parq"))):
+        cases.append({"id": "T/" + os.path.basename(p_), "foreign": os.path.relpath(p_, REPO), "pseed": len(cases), "nprog": 14,
+                      "frame": None, "opts": {"file_scheme": "simple" if os.path.isfile(p_) else "hive"}})
+    from vf.gen import recipes as RC
+    for i in range(40 if tier == "quick" else 600):
+        rec = RC.random_recipe(rng, flat=True, thin=True)
+        # delta-packed columns are left to C03/C12 (their decoder has open native findings that take the interpreter down)
+        for c_ in rec["columns"]:
+            if c_.get("encoding") == "DELTA_BINARY_PACKED":
+                c_["encoding"] = "PLAIN"
+        cases.append({"id": "R/%d/%d" % (seed, i), "recipe": rec, "pseed": int(rng.integers(0, 2 ** 31)), "nprog": 14, "frame": None, "opts": {}})
     # deterministic corner datasets: zero rows, single row, zero-row groups
     for j, (n_rows, scheme) in enumerate([(0, "simple"), (0, "hive"), (1, "simple"), (1, "hive"), (5, "drill")]):
         c = D.random_dataset(np.random.default_rng([7, j]), "Z/%d" % j, scheme=scheme, n_part=0, max_rows=1)
@@ -70,7 +85,7 @@ def gen_program(rng, nrg, colnames, index_cols, scheme, nrows, filecols=None, mu
     tk = ["to_pandas", "to_pandas", "iter", "head", "count", "to_pandas"][int(rng.integers(0, 6))]
     term = {"t": tk}
     if tk in ("to_pandas", "iter", "head"):
-        if rng.random() < 0.6:
+        if rng.random() < 0.6 and colnames:
             k = int(rng.integers(1, len(colnames) + 1))
             term["columns"] = [colnames[i] for i in rng.permutation(len(colnames))[:k]]
         im = int(rng.integers(0, 4))
@@ -119,23 +134,47 @@ def run_case(case):
     import fastparquet
     from vf.props import common as C
     from vf.mon import tables as T
-    df = D.build_dataset_frame(case)
+    import os
     opts = case["opts"]
     scheme = opts.get("file_scheme", "simple")
-    path = C.fresh_path(".parq" if scheme == "simple" else "")
     counters = {}
     res = {"features": [], "nontrivial": False, "failures": [], "counters": counters}
     feats = set()
     holder = []
+    foreign = bool(case.get("foreign") or case.get("recipe"))
+    if case.get("foreign"):
+        from vf import REPO
+        path = os.path.join(REPO, case["foreign"])       # read only, never cleaned up
+    else:
+        path = C.fresh_path(".parq" if scheme == "simple" else "")
     try:
-        with C.writer_globals(case.get("page_size"), case.get("dpv")):
+        if case.get("recipe"):
+            from vf.gen import recipes as RC
+            RC.write_recipe(case["recipe"], path)
+        elif not foreign:
+            df = D.build_dataset_frame(case)
+            with C.writer_globals(case.get("page_size"), case.get("dpv")):
+                try:
+                    fastparquet.write(path, df, **C.write_kwargs(opts))
+                except Exception as e:
+                    res["outcome"] = "rejected"
+                    res["reject"] = C.exc_shape(e)
+                    counters["write_rejected"] = 1
+                    return res
+        if case.get("foreign") and os.path.isfile(path):
+            # a bit-packed run whose last group is not padded makes fastparquet read past its input (open native finding, decided by
+            # C12): what it decodes there depends on the heap, so two reads of the same file may differ - not a partial-read question
+            from vf.ref import reader as R
             try:
-                fastparquet.write(path, df, **C.write_kwargs(opts))
-            except Exception as e:
-                res["outcome"] = "rejected"
-                res["reject"] = C.exc_shape(e)
-                counters["write_rejected"] = 1
+                notes = R.read_file(path).notes
+            except Exception:
+                notes = []
+            if any(n_[0] == "SHORT_BP_GROUP" for n_ in notes):
+                res["outcome"] = "skip"
+                counters["foreign_skipped_short_bit_packed_group"] = 1
                 return res
+        if foreign:
+            counters["foreign_files"] = 1
         try:
             pf = fastparquet.ParquetFile(path)
             flat = pf.to_pandas(index=False)
@@ -289,7 +328,8 @@ def run_case(case):
                 f.close()
             except Exception:
                 pass
-        C.cleanup(path)
+        if not case.get("foreign"):
+            C.cleanup(path)
 
 
 def _model_sel(chain, nrg):
